@@ -195,7 +195,7 @@ PROPS = {
                  {'send:between-clear-pre-and-post': 1, 'send:after-flag-cleared-while-draining': 1, 'send:while-draining': 1, 'send:loop-inside-the-wait': 1, 'flag-cleared-between-enqueue-and-swap': 1, 'executor-dropped-with-active-wakers': 1, 'batch:above-limit': 1},
                  extra_legs=[HIST_LEG]),
     'C11': sched('C11', 'sampled schedules (4k quick / 40k thorough): stop()+wakeup() from a controller thread at a planned moment of run(None|5 ms) (returns Ok, at most one iteration begins afterwards, never returns before the request; a hang is decided by state: loop thread parked in epoll_wait on 5 samples after the request returned), '
-                 'wakeup() before the wait (single-threaded), bare wakeup() calls from a second thread against run(None) with a dawdling per-iteration closure (every returned wakeup must be followed by a wait that ends; verdict needs the loop thread parked in epoll_wait), block_on with a future woken from 1..6 threads or pre-empted by stop() (polls caused by the harness\' own later wakes do not count).',
+                 'wakeup() before the wait (single-threaded), bare wakeup() calls from a second thread against run(None) with a dawdling per-iteration closure (every returned wakeup must be followed by a wait that ends; verdict needs the loop thread parked in epoll_wait), block_on with a future woken from 1..6 threads or pre-empted by stop() (polls caused by the harness\' own later wakes do not count); in two cases of five a timer 45-75 s ahead bounds every untimed wait; a second block_on on the same loop; stop() followed by a wake of the future issued on the loop thread inside a dispatch (must give None after exactly one poll). Thorough tier: the Miri legs report an interpreter-detected deadlock of these workloads as a violation.',
                  {'signal:loop-inside-the-wait': 1, 'signal:after-stop-check-before-wait': 1, 'wakeup:no-wait-in-progress': 1, 'wakeup:loop-inside-the-wait': 1, 'wake:loop-inside-the-wait': 1, 'wake:after-poll-before-wait': 1, 'wake:between-flag-swap-and-poll-end': 1, 'wakeup-before-wait': 1, 'block_on:completed': 1, 'block_on:stopped': 1}),
     'C01': hist('C01', "sampled runtime exploration: 24k (quick) / 400k (thorough) generated histories with few slots, immediate slot reuse, stale tokens of every removed source, composites with 1..6 sub-sources (incl. TransientSource children) and all mutations also issued from callbacks; every callback invocation is checked for liveness of its source and for a cause of its own (ping count, head of its channel queue, current timer arming, poll(2) on the sub-source's own fd). Histories, not all of them; <200 reuses per slot.", 'trusted: the harness ledger (a record of what the harness did and what the API returned), the instrumented wrapper source (forwards to the real calloop sources, logs, injects the faults a history asks for), poll(2)//proc/self/fdinfo as ground truth for fd readiness and registrations, the statistics hook; real time only through Instants taken by the harness around calls'),
     'C02': hist('C02', 'sampled runtime exploration: before every dispatch the set of enabled sources with a pending cause is computed from the ledger and from poll(2) (per interest and trigger mode); after an Ok dispatch each of them must have been invoked unless a callback of that dispatch touched it. Up to 24 (quick) / 96 (thorough) sources per history, all interest x mode combinations; batches above the 1024 poller batch size are exercised only through channel/executor queues in the sched engine.', 'trusted: the harness ledger (a record of what the harness did and what the API returned), the instrumented wrapper source (forwards to the real calloop sources, logs, injects the faults a history asks for), poll(2)//proc/self/fdinfo as ground truth for fd readiness and registrations, the statistics hook; real time only through Instants taken by the harness around calls'),
